@@ -459,6 +459,140 @@ def run_hs_splits(ck):
     return coq
 
 
+def limit_sizes(ck):
+    """configured maxMessagePayloadSize values: N-1, N, N+1 around powers of two, and arbitrary non-powers"""
+    exps = (9, 10, 12, 16) if ck.quick() else (9, 10, 11, 12, 13, 14, 15, 16, 17)
+    vals = set()
+    for k in exps:
+        for v in ((1 << k) - 1, 1 << k, (1 << k) + 1):
+            if 512 <= v <= 1 << 24:
+                vals.add(v)
+    vals |= {1000, 3000} | (set() if ck.quick() else {777, 5000, 40000, 100000})
+    return sorted(vals)
+
+
+def run_rs_limits(ck):
+    """announced receive limit == enforced receive limit, for configured sizes that are not powers of two, every
+    implementation x role: the limit is read off the handshake octets the endpoint WROTE, then a real serialized message of
+    exactly announced-1 / announced / announced+1 octets is framed and fed: the first two must reach the session, the third
+    must be refused (and the configured size must not exceed the announced one)"""
+    coq, n_eval = [], 0
+    for fw in FWS:
+        sizes = limit_sizes(ck) if fw == "tx" else [None]          # asyncio has no option: always 2^24 (boundary: thorough tier)
+        plans = []
+        for role in ("server", "client"):
+            for N in sizes:
+                plans.append((role, N))
+        # 1. what does each endpoint announce?  (fresh endpoint, valid peer handshake)
+        peer_hs = {"server": "7ff10000", "client": "7ff10000"}
+        probe = [dict(op="script", jobs=[dict(op="new", ep="e", kind="rs", role=role, sers=["json"], max=N, sess={}),
+                                         dict(op="feed", ep="e", chunks=[peer_hs[role]], env_stop=False)]) for role, N in plans]
+        pr = ck.run_impl(DRIVER, {"fw": fw, "jobs": probe})["results"]
+        ann = {}
+        for (role, N), o in zip(plans, pr):
+            log = [e for r in o["results"] for e in r["log"]]
+            w = writes_of(log)
+            st = o["results"][-1]["state"]
+            n_eval += 1
+            rep = dict(kind="rs-limit", fw=fw, role=role, configured=N, written=w.hex(), state=st)
+            if len(w) != 4 or w[0] != 0x7F or not st["attached"]:
+                ck.violation(f"rawsocket.{fw}.{role}/limit/handshake", f"unexpected handshake octets '{w.hex()}'", rep, True)
+                continue
+            a = 1 << (9 + (w[1] >> 4))
+            ann[(role, N)] = a
+            ck.bump(f"rs-limit/{fw}/{role}/announced-2^{9 + (w[1] >> 4)}")
+            if N is not None and a < N:
+                ck.violation(f"rawsocket.{fw}.{role}/limit/announced-below-configured", f"configured {N}, announced {a}", rep, True)
+            if N is not None and a >= 2 * N and N > 512:
+                ck.violation(f"rawsocket.{fw}.{role}/limit/announced-not-tight", f"configured {N}, announced {a}", rep, True)
+            if st["max_recv"] != a:
+                ck.violation(f"rawsocket.{fw}.{role}/limit/announced-vs-enforced",
+                             f"{fw} RawSocket {role} configured with {N} announces {a} octets (handshake '{w.hex()}') but enforces "
+                             f"{st['max_recv']} on incoming frames", rep, True)
+        # 2. behaviour at the announced boundary (sizes a real frame can be built for quickly)
+        todo = [(role, N, a, L) for (role, N), a in ann.items() if a <= ((1 << 13) if ck.quick() else (1 << 17)) for L in (a - 1, a, a + 1)]
+        if not todo:
+            continue
+        fr = ck.run_impl(DRIVER, {"fw": fw, "jobs": [dict(op="frames", ser="json", msgs=[{"id": 900, "len": L}]) for _, _, _, L in todo]})["results"]
+        jobs = []
+        for (role, N, a, L), f in zip(todo, fr):
+            payload = bytes.fromhex(f["frames"][0]["payload"])
+            assert len(payload) == L, (len(payload), L)
+            frame = L.to_bytes(4, "big") + payload
+            cut = len(frame) // 2
+            jobs.append(dict(op="script", jobs=[dict(op="new", ep="e", kind="rs", role=role, sers=["json"], max=N, sess={}),
+                                                 dict(op="feed", ep="e", chunks=[peer_hs[role], frame[:cut].hex(), frame[cut:].hex()], env_stop=True),
+                                                 dict(op="lost", ep="e", clean=True)]))
+        out = ck.run_impl(DRIVER, {"fw": fw, "jobs": jobs})["results"]
+        for (role, N, a, L), o in zip(todo, out):
+            n_eval += 1
+            log = [e for r in o["results"] for e in r["log"]]
+            got = [e[1] for e in log if e[0] == "sess_msg"]
+            bad = [e for e in log if e[0] in ("abort", "lose", "escaped")]
+            rep = dict(kind="rs-limit", fw=fw, role=role, configured=N, announced=a, length=L,
+                       log=[e if e[0] != "write" else ["write", e[1][:16]] for e in log])
+            if L <= a and (got != [900] or bad):
+                ck.violation(f"rawsocket.{fw}.{role}/limit/within-announced-refused",
+                             f"{fw} RawSocket {role} configured with {N} announced {a} octets, but a {L}-octet message was not "
+                             f"delivered: {bad[:2]}", rep, True)
+            if L > a and (got or not bad):
+                ck.violation(f"rawsocket.{fw}.{role}/limit/over-announced-accepted",
+                             f"{fw} RawSocket {role} announced {a} octets but took a {L}-octet message (delivered {got}, closed {bool(bad)})", rep, True)
+            if a <= 4096:
+                ev = canon_log(log, fw)
+                coq.append("(%d,%d,[1],%d,false,[Batch [(900,ROk)]],[IData %s;IData %s;ILost true],%s)" % (
+                    0 if fw == "tx" else 1, 0 if role == "server" else 1, N if N is not None else 2 ** 24,
+                    nlist(bytes.fromhex(peer_hs[role])), nlist(L.to_bytes(4, "big") + bytes.fromhex(f_payload(fr, todo, (role, N, a, L)))), ev))
+    ck.evaluations += n_eval
+    ck.note_cases(0, coq)
+    ck.log(f"announced vs enforced receive limit: {n_eval} probes (configured sizes around powers of two and arbitrary, both roles)")
+    return coq
+
+
+def f_payload(fr, todo, key):
+    return fr[todo.index(key)]["frames"][0]["payload"]
+
+
+def run_ws_shapes(ck, drv):
+    """delivery shapes of the framework: the same octet stream handed over as one read per event-loop iteration or as a
+    burst of several reads within ONE iteration (asyncio queues them behind one waiter wake-up), every cut position of a
+    short stream / byte-wise / random cuts, both directions, all pairings; oracle: messages intact and in order"""
+    rng = ck.rng("ws-shapes")
+    n_eval = 0
+    sers = ["json", "msgpack"] if ck.quick() else ["json", "msgpack", "cbor", "json.batched"]
+    for cfw, sfw in PAIRINGS:
+        dc, ds = drv[cfw], drv[sfw]
+        for ser in sers:
+            for direction in ("c2s", "s2c"):
+                tag0 = f"S{cfw}{sfw}{ser}{direction}"
+                # the wire octets once (sender endpoint), replayed into fresh receivers
+                splits = [1, 2, 3, 7, "bytes", "rand", "rand"] + ([] if ck.quick() else [5, 11, 20, "rand", "rand"])
+                for si, mode in enumerate(splits):
+                    for burst in (True, False):
+                        tag = f"{tag0}{si}{int(burst)}"
+                        ws_handshake(dc, ds, tag, [ser], [ser])
+                        snd, sname, rcv, rname, rfw, rrole = ((dc, "c" + tag, ds, "s" + tag, sfw, "server") if direction == "c2s"
+                                                             else (ds, "s" + tag, dc, "c" + tag, cfw, "client"))
+                        so = snd(op="send", ep=sname, msgs=[{"id": 400 + i, "pad": rng.randint(0, 30)} for i in range(3)])
+                        wire = relay(so["log"])
+                        chunks = split_chunks(wire, rng, mode)
+                        ro = rcv(op="feed", ep=rname, chunks=[c.hex() for c in chunks], env_stop=True, burst=burst)
+                        got = [e[1] for e in ro["log"] if e[0] == "sess_msg"]
+                        bad = [e for e in ro["log"] if e[0] in ("abort", "lose", "escaped", "sess_close")]
+                        n_eval += 1
+                        ck.bump(f"ws-shape/{rfw}.{rrole}/" + ("burst" if burst else "step"))
+                        if got != [400, 401, 402] or bad:
+                            ck.violation(f"websocket.{rfw}.{rrole}/delivery/" + ("burst" if burst else "one-read-per-iteration"),
+                                         f"{rfw} WAMP-over-WebSocket {rrole} ({ser}): 3 valid messages delivered as {len(chunks)} reads "
+                                         f"{'within ONE event-loop iteration' if burst else 'one per event-loop iteration'} "
+                                         f"(sizes {[len(c) for c in chunks][:10]}): session got {got}, failures {bad[:3]}",
+                                         dict(kind="ws-shape", client=cfw, server=sfw, ser=ser, direction=direction, burst=burst,
+                                              chunks=[c.hex() for c in chunks], got=got, log=ro["log"][-8:]), True)
+                        dc(op="drop", ep="c" + tag); ds(op="drop", ep="s" + tag)
+    ck.evaluations += n_eval
+    ck.log(f"WebSocket delivery shapes (burst / one read per iteration): {n_eval} conversations")
+
+
 def run_conns(ck):
     """scenarios are scripted per framework in batch mode; the peer's octets are produced with the real serializers"""
     coq, n_eval = [], 0
@@ -882,7 +1016,8 @@ def run_ws_flow(ck, drv):
                                 items.append((relay(so["log"]), b, payload))
                             wire = b"".join(w for w, _, _ in items)
                             chunks = split_chunks(wire, rng, rng.choice(["whole", "bytes", "rand"]))
-                            ro = rcv(op="feed", ep=rname, chunks=[c.hex() for c in chunks], env_stop=True)
+                            burst = rng.random() < 0.5
+                            ro = rcv(op="feed", ep=rname, chunks=[c.hex() for c in chunks], env_stop=True, burst=burst)
                             lo = rcv(op="lost", ep=rname, clean=False)
                             log = ro["log"] + lo["log"]
                             n_eval += 1
@@ -893,7 +1028,7 @@ def run_ws_flow(ck, drv):
                             dropped = any(e[0] in ("abort", "lose") for e in ro["log"])
                             codes = close_codes(None, relay(ro["log"]))
                             rep = dict(kind="ws-flow", client=cfw, server=sfw, ser=ser, corr=corr, pos=pos, direction=direction,
-                                       failByDrop=fbd, split=[len(c) for c in chunks][:16], got=got, codes=codes, log=log[-12:])
+                                       failByDrop=fbd, burst=burst, split=[len(c) for c in chunks][:16], got=got, codes=codes, log=log[-12:])
                             want_ids = [300 + i for i in range(3)] if corr == "none" else [300 + i for i in range(pos + (1 if corr in ("proto", "other") else 0))]
                             if esc:
                                 ck.violation(f"websocket.{rfw}.{rrole}/{corr}/ESCAPED/{esc[0][1]}", f"{esc}", rep, True)
@@ -1006,7 +1141,7 @@ def run(ck):
                    "Twisted receive limits 2^9..2^16, messages of serialized length limit-1/limit/limit+1 (thorough: 16 MiB boundary), "
                    "random segmentations; WebSocket: every ordered subset (quick: <= 3 of json/msgpack/cbor + batched samples; thorough: "
                    "all orders of 4 ids) on both sides through real opening handshakes in all four pairings, foreign protocol lists, "
-                   "message flow and corruption (flipped frame type, garbage, truncated, ProtocolError / other exception in session "
+                   "delivery shape (several reads within one event-loop iteration vs one read per iteration) x cut positions x direction; message flow and corruption (flipped frame type, garbage, truncated, ProtocolError / other exception in session "
                    "code) at every position, failByDrop on/off; non-trivial = the case reached the handshake decision / frame loop / "
                    "negotiation; distinct = distinct canonical model case")
     ck.extra_tb += [
@@ -1016,6 +1151,10 @@ def run(ck):
         "environment assumption of the model: after a refused handshake / a framing-level failure the lower transport delivers no "
         "further octets (absorbing state FDead/PDead); the drivers stop feeding at that point like a real transport",
         "oracle assumptions: stub ISession recording onOpen/onMessage/onClose; fake transports; UBJSON not installed",
+        "translator: the Twisted expressions for self.MAX_LENGTH and the announced nibble are read from the source AST; "
+        "int(math.ceil(math.log(x, 2))) is rendered as N.log2_up x - the float expression is compared with exact integer "
+        "arithmetic by the interpreter on every run (quick: all values used and 2^k-1..2^k+1; thorough: all of 512..2^24); "
+        "which end of receive_queue the asyncio WebSocket adapter pushes/pops is read from the AST (gen_aio_ws_*)",
     ]
     # ---- translator ----
     rc, out = vlib.sh([vlib.VENV_PY, os.path.join(vlib.ROOT, "translators", "rawsocket_consts.py")], env=vlib.impl_env(), timeout=300)
@@ -1024,6 +1163,9 @@ def run(ck):
         body = out[out.index("(* GENERATED"):]
         vlib.write_if_changed(os.path.join(vlib.COQ, "Gen", "RawSocketConsts.v"), body)
     ck.obligation("translator_rawsocket_consts", gen_ok, out[-1500:] if not gen_ok else "")
+    vals = sorted(set(limit_sizes(ck)) | {v for k in range(9, 25) for v in ((1 << k) - 1, 1 << k, (1 << k) + 1) if 512 <= v <= 1 << 24})
+    cl = ck.run_impl(DRIVER, {"fw": "tx", "jobs": [dict(op="ceil_log", values=vals, full=not ck.quick())]})["results"][0]
+    ck.obligation("float_ceil_log2_equals_log2_up", not cl["bad"], f"int(math.ceil(math.log(n, 2))) differs from ceil(log2 n) for n in {cl['bad'][:10]}")
     broken = ck.coq_props()
     ok, out = vlib.coq_make(["Model/RawSocketRun.vo"])
     if not ok:
@@ -1034,6 +1176,7 @@ def run(ck):
     fr_cases = run_frames(ck)
     cn_cases = run_conns(ck)
     cn_cases += run_hs_splits(ck)
+    cn_cases += run_rs_limits(ck)
     drv = {fw: Drv(fw) for fw in FWS}
     try:
         run_rs_pairs(ck, drv)
@@ -1041,6 +1184,7 @@ def run(ck):
             run_rs_boundary(ck, drv)
         srv_cases, cl_cases = run_ws_negotiation(ck, drv)
         ws_cases = run_ws_flow(ck, drv)
+        run_ws_shapes(ck, drv)
         api_rs, api_ws = run_api(ck, drv)
         cn_cases += api_rs
         ws_cases += api_ws
@@ -1126,6 +1270,40 @@ def replay(path):
         out = ck.run_impl(DRIVER, {"fw": r["fw"], "jobs": jobs})["results"][0]["results"]
         print("implementation log:", [e for x in out for e in x["log"]])
         return 0
+    if kind == "rs-limit":
+        N, role, fw = r["configured"], r["role"], r["fw"]
+        jobs = [dict(op="script", jobs=[dict(op="new", ep="e", kind="rs", role=role, sers=["json"], max=N, sess={}),
+                                        dict(op="feed", ep="e", chunks=["7ff10000"], env_stop=False)])]
+        if r.get("length"):
+            jobs.insert(0, dict(op="frames", ser="json", msgs=[{"id": 900, "len": r["length"]}]))
+        out = ck.run_impl(DRIVER, {"fw": fw, "jobs": jobs})["results"]
+        o = out[-1]["results"]
+        w = writes_of([e for x in o for e in x["log"]])
+        a = 1 << (9 + (w[1] >> 4))
+        print(f"{fw} RawSocket {role}, maxMessagePayloadSize={N}: handshake octets written {w.hex()} -> announces {a}; enforces {o[-1]['state']['max_recv']}")
+        if r.get("length"):
+            L = r["length"]
+            frame = L.to_bytes(4, "big") + bytes.fromhex(out[0]["frames"][0]["payload"])
+            o2 = ck.run_impl(DRIVER, {"fw": fw, "jobs": [dict(op="script", jobs=[
+                dict(op="new", ep="e", kind="rs", role=role, sers=["json"], max=N, sess={}),
+                dict(op="feed", ep="e", chunks=["7ff10000", frame.hex()], env_stop=True)])]})["results"][0]["results"]
+            lg = [e if e[0] != "write" else ["write", e[1][:16]] for x in o2 for e in x["log"]]
+            print(f"a {L}-octet message (announced {a}):", lg)
+            return 1 if (L <= a) != any(e[0] == "sess_msg" for e in lg) else 0
+        return 1 if o[-1]["state"]["max_recv"] != a else 0
+    if kind == "ws-shape":
+        drv = {fw: Drv(fw) for fw in FWS}
+        try:
+            dc, ds = drv[r["client"]], drv[r["server"]]
+            ws_handshake(dc, ds, "R", [r["ser"]], [r["ser"]])
+            rcv, rname = (ds, "sR") if r["direction"] == "c2s" else (dc, "cR")
+            ro = rcv(op="feed", ep=rname, chunks=r["chunks"], env_stop=True, burst=r["burst"])
+            got = [e[1] for e in ro["log"] if e[0] == "sess_msg"]
+            print(f"{len(r['chunks'])} reads {'within ONE event-loop iteration' if r['burst'] else 'one per iteration'}: session got {got}; log {ro['log'][-6:]}")
+            return 0 if got == [400, 401, 402] else 1
+        finally:
+            for d in drv.values():
+                d.close()
     if kind in ("rs-pair", "rs-boundary", "ws-negotiation", "ws-foreign", "ws-flow"):
         drv = {fw: Drv(fw) for fw in FWS}
         try:
